@@ -245,7 +245,8 @@ fn advance_until(state: &mut RunState, target: u16, bps: &[u16]) {
 }
 
 /// C10: every sequence of <= 4 commands over { step, step into 1, step into 3 } on a program with a loop and a JSR/RET
-/// subroutine, followed by `exit`: the paused machine equals the reference machine (`step` = run to the following address)
+/// subroutine, followed by `exit`: the paused machine equals the reference machine (`step` = one instruction, or the whole
+/// subroutine when it is a call)
 #[test]
 fn verif_native_step_over() {
     let name = "verif_native_step_over";
@@ -266,7 +267,7 @@ fn verif_native_step_over() {
                 let mut e = build(P1, Some(&s2)); e.run();
                 let mut reference = build(P1, None).state;
                 for i in &seq2 {
-                    match i { 0 => { let t = reference.pc.wrapping_add(1); advance_until(&mut reference, t, &[]); } 1 => { advance(&mut reference, 1); } _ => { advance(&mut reference, 3); } }
+                    match i { 0 => { if ref_call(reference.mem[reference.pc as usize]) { let t = reference.pc.wrapping_add(1); advance_until(&mut reference, t, &[]); } else { advance(&mut reference, 1); } } 1 => { advance(&mut reference, 1); } _ => { advance(&mut reference, 3); } }
                 }
                 (e.state, reference)
             }));
@@ -432,6 +433,7 @@ fn verif_native_confined_writes() {
 enum RefCmd { Step, StepInto(u16), StepOut, Continue, BreakAdd(u16), BreakRemove(u16), Goto(u16), Reset, MoveReg(u16, u16) }
 struct RefDbg { m: RunState, initial: RunState, bps: Vec<u16>, stack: bool }
 fn ref_halt(w: u16) -> bool { w >> 12 == 0xF && w & 0xFF == 0x25 }
+fn ref_call(w: u16) -> bool { w >> 12 == 0x4 || (w >> 12 == 0xD && (w >> 10) & 3 == 3) }
 fn ref_return(w: u16) -> bool { (w >> 12 == 0xC && (w >> 6) & 7 == 7) || (w >> 12 == 0xD && (w >> 10) & 3 == 2) }
 impl RefDbg {
     fn user(&self, a: u16) -> bool { a >= self.m.orig && a < 0xFE00 }
@@ -440,6 +442,10 @@ impl RefDbg {
     fn resume(&mut self, mode: RefCmd) {
         if ref_halt(self.m.mem[self.m.pc as usize]) { return; }          // refused while sitting on HALT
         let return_addr = self.m.pc.wrapping_add(1);
+        // `step`: the next instruction, or the WHOLE subroutine when it is a call (until the matching return has brought
+        // control to the following address: calls and returns in between are counted)
+        let over_call = mode == RefCmd::Step && ref_call(self.m.mem[self.m.pc as usize]);
+        let mut depth = 0i64;
         let mut left = if let RefCmd::StepInto(k) = mode { k.max(1) as u32 } else { 0 };
         let mut first = true;
         loop {
@@ -448,13 +454,14 @@ impl RefDbg {
             let w = self.m.mem[pc as usize];
             if !first && self.bps.contains(&pc) { return; }
             if ref_halt(w) { return; }
-            if mode == RefCmd::Step && !first && pc == return_addr { return; }
+            if over_call && !first && pc == return_addr && depth == 0 { return; }
             first = false;
             self.m.pc = pc.wrapping_add(1);
             self.m.execute(w);
             match mode {
                 RefCmd::StepInto(_) => { left -= 1; if left == 0 { return; } }
                 RefCmd::StepOut => if ref_return(w) { return; },
+                RefCmd::Step => { if !over_call { return; } if ref_call(w) { depth += 1; } else if ref_return(w) && depth > 0 { depth -= 1; } }
                 _ => (),
             }
         }
@@ -482,7 +489,12 @@ const Q1: &str = ".orig x3000\nand r0,r0,#0\nadd r0,r0,#2\nloop call outer\n.bre
 /// the same shape in the JSR/RET convention only (usable without the stack feature), recursion through a counter, HALT last
 const Q2: &str = "and r0,r0,#0\nadd r0,r0,#2\nst r7, save\nloop jsr sub\nadd r0,r0,#-1\nbrp loop\n.break\n.break\nld r7, save\nbrnzp end\nsub add r1,r1,#1\nadd r4,r7,#0\nadd r1,r1,#0\nbrz skip\nskip add r7,r4,#0\nret\nsave .fill x0\nend halt\n";
 
-/// C10 / C11 / C16 over whole sessions against the reference debugger: 2 programs (Q1 with `-f stack`, Q2 without) x EVERY
+/// recursion in both conventions: the recursive call site is reached again, one activation deeper, before the stepped-over call returns
+const Q3: &str = ".orig x3000\nld r6, sp\nand r0, r0, #0\nadd r0, r0, #3\njsr f\nadd r5, r5, #1\nhalt\nf add r6, r6, #-1\nstr r7, r6, #0\nadd r0, r0, #-1\nbrnz fdone\njsr f\nadd r1, r1, #1\nfdone ldr r7, r6, #0\nadd r6, r6, #1\nret\nsp .fill xf000\n";
+const Q4: &str = ".orig x3000\nand r0, r0, #0\nadd r0, r0, #3\ncall f\nhalt\nf push r0\nadd r1, r1, r0\nadd r0, r0, #-1\nbrnz fe\ncall f\nfe pop r0\nrets\n";
+
+/// C10 / C11 / C16 over whole sessions against the reference debugger: 4 programs (Q1 with `-f stack`, Q2 without, Q3 / Q4
+/// recursive in the JSR/RET and the CALL/RETS convention) x EVERY
 /// sequence of <= 4 commands over 11 commands { step, step into 1, step into 3, step into 0, step out, continue, break add A,
 /// break remove A, break remove B (the .break), goto C, reset } followed by `exit`: the paused machine AND the breakpoint list
 /// equal the reference's; every session terminates
@@ -490,7 +502,9 @@ const Q2: &str = "and r0,r0,#0\nadd r0,r0,#2\nst r7, save\nloop jsr sub\nadd r0,
 fn verif_native_session_reference() {
     let name = "verif_native_session_reference";
     let mut evaluated = 0u64;
-    for (prog, stack, a, b, c) in [(Q1, true, 0x3008u16, 0x3003u16, 0x3005u16), (Q2, false, 0x300Bu16, 0x3006u16, 0x3003u16)] {
+    // (program, -f stack, A = address for break add/remove, B = a second address to remove (the .break where there is one), C = goto target)
+    for (prog, stack, a, b, c) in [(Q1, true, 0x3008u16, 0x3003u16, 0x3005u16), (Q2, false, 0x300Bu16, 0x3006u16, 0x3003u16),
+            (Q3, false, 0x300Au16, 0x300Bu16, 0x3003u16), (Q4, true, 0x3008u16, 0x3009u16, 0x3002u16)] {
         let cmds = [RefCmd::Step, RefCmd::StepInto(1), RefCmd::StepInto(3), RefCmd::StepInto(0), RefCmd::StepOut, RefCmd::Continue,
             RefCmd::BreakAdd(a), RefCmd::BreakRemove(a), RefCmd::BreakRemove(b), RefCmd::Goto(c), RefCmd::Reset];
         let n = cmds.len();
